@@ -71,6 +71,22 @@ def gen(tier, rng):
                 continue
             cases.append(("n%d" % i, b"%03d" % n + t))
             i += 1
+    # spliced keywords: the head of one keyword continued by the tail of another (same or neighbouring offset)
+    kws = [k.encode() for k in scancorr.KEYWORDS]
+    seen = set()
+    for a in kws:
+        for b in kws:
+            if a == b:
+                continue
+            for cut in range(1, len(a)):
+                for off in (-1, 0, 1):
+                    j = cut + off
+                    if 0 < j < len(b):
+                        w2 = a[:cut] + b[j:]
+                        if w2 not in seen and w2 not in WORDSET:
+                            seen.add(w2)
+                            cases.append(("n%d" % i, w2 + tails[i % len(tails)]))
+                            i += 1
     for w in words:
         for v in (w.lower(), w.upper(), w.swapcase(), w + w, w[::-1]):
             cases.append(("n%d" % i, v + b" "))
@@ -109,7 +125,7 @@ def run(tier, out, model_ok, proof):
     out.coverage.update({
         "evaluations": len(cases),
         "distinct_nontrivial": len(set(d for _, d in cases if expect(d) is not None)),
-        "rule": "words within one byte of every prefix of every keyword / response code (all 255 non-zero bytes at each cut%s; the next byte of the word, its other letter case and the terminators always), all 3-digit strings, case variants, x terminators; non-trivial = starts with a byte that can begin a keyword; each case: lexemes, error class/index and per-Next() configuration compared between scanner.Scanner and the extracted Coq model, and the implementation's result judged against a reference written from the property text" % ("" if tier == "thorough" else "; 25% sample in quick tier"),
+        "rule": "words within one byte of every prefix of every keyword / response code (all 255 non-zero bytes at each cut%s; the next byte of the word, its other letter case and the terminators always), all 3-digit strings, every keyword head continued by the tail of every other keyword, case variants, x terminators; non-trivial = starts with a byte that can begin a keyword; each case: lexemes, error class/index and per-Next() configuration compared between scanner.Scanner and the extracted Coq model, and the implementation's result judged against a reference written from the property text" % ("" if tier == "thorough" else "; 25% sample in quick tier"),
         "samples": [{"input": d.decode("latin1"), "impl": {"lex": results[c]["lex"], "end": list(results[c]["end"])}} for c, d in cases[:3] + cases[-2:]],
         "traces_validated_against_impl": len(cases) - len(mism) if model_ok else 0,
         "reference_kinds": kinds,
